@@ -340,7 +340,12 @@ func runBin(dir string, stdout *bytes.Buffer, args ...string) error {
 	}
 	cmd.Env = append(os.Environ(), "HOME="+dir)
 	cmd.Dir = dir
-	if err := cmd.Run(); err != nil {
+	err := cmd.Run()
+	if _, exited := err.(*exec.ExitError); err != nil && !exited {
+		// the binary could not be started (fork failure on a busy machine): not desync's doing
+		panic(fmt.Sprintf("harness: cannot run %s: %v", os.Getenv("VERIF_DESYNC_BIN"), err))
+	}
+	if err != nil {
 		msg := strings.TrimSpace(stderr.String())
 		if len(msg) > 300 {
 			msg = msg[len(msg)-300:]
